@@ -535,7 +535,11 @@ func (e *Evaluator) evalFor(f *parser.ForStmt) (value, error) {
 		loopVarName = f.LoopVar.Name
 	}
 	for r.next(e.scope, loopVarName) {
+		// Each iteration gets a fresh block scope so that variables
+		// declared in the loop body do not leak into the next iteration.
+		e.pushScope()
 		val, err := e.eval(f.Block)
+		e.popScope()
 		if err != nil {
 			return nil, err
 		}
